@@ -273,7 +273,7 @@ def hygiene():
 def ensure_driver():
     od = os.path.join(BUILD, "ocaml")
     os.makedirs(od, exist_ok=True)
-    ok, lg = coq_make(["Inst.vo"])
+    ok, lg = coq_make(["Inst.vo", "Reent.vo"])        # everything coq/Extract.v requires
     if not ok:
         raise BuildError("coq-model", lg[-4000:])
     srcs = [os.path.join(COQB, f) for f in os.listdir(COQB) if f.endswith(".v")] + \
